@@ -92,8 +92,11 @@ class FilterExpression(Expression):
 
         if isinstance(expression, PrefixExpression):
             operand = self._canonical_string(expression.right, PRECEDENCE_PREFIX)
+            if isinstance(expression.right, ComparisonExpression):
+                # `!` binds more tightly than a comparison operator.
+                operand = f"({operand})"
             expr = f"!{operand}"
-            return f"({expr})" if parent_precedence > PRECEDENCE_PREFIX else expr
+            return f"({expr})" if parent_precedence >= PRECEDENCE_PREFIX else expr
 
         return str(expression)
 
